@@ -701,6 +701,9 @@ fn shape_eval_unit<F: Backend>(cx: &mut Cx, sub: &mut u64, depth: usize) {
 
 #[derive(Clone, Debug)]
 enum Unit {
+    /// workspace / storage hand-over between every ordered pair of a panel of
+    /// pressure programs (round 10)
+    Handover { backend: u8 },
     Seq { backend: u8, first: usize },
     Handles { backend: u8 },
     ShapeEvals { backend: u8 },
@@ -713,6 +716,7 @@ fn full_alpha_len() -> usize {
 fn units(_tier: Tier) -> Vec<Unit> {
     let mut v = vec![];
     for backend in 0..3u8 {
+        v.push(Unit::Handover { backend });
         v.push(Unit::Handles { backend });
         v.push(Unit::ShapeEvals { backend });
         for first in 0..full_alpha_len() {
@@ -720,6 +724,120 @@ fn units(_tier: Tier) -> Vec<Unit> {
         }
     }
     v
+}
+
+/// Panel for the hand-over unit: programs whose allocation passes through the
+/// allocator's rarely taken arms - a binary op on operands that are spilled at
+/// that point, including op(a, a) - each with a decided root choice, so that an
+/// interval trace exists and `simplify` re-allocates the whole body with the
+/// shared workspace.  Small pressure (3 live values: spills in VM<3>) and wide
+/// pressure (14 live values across calls: spills in the 12-register JIT).
+fn handover_panel() -> Vec<(String, Prog)> {
+    let mut v = vec![];
+    let ops = [B::Sub, B::Div, B::Atan, B::Compare, B::Mod, B::And, B::Or, B::Add, B::Mul, B::Min, B::Max];
+    for b in ops {
+        for same in [true, false] {
+            // ((y+z)*z - b(z, z|y)) - (y+z) - z, guarded by min(., 1e6)
+            let mut p = Prog::default();
+            let _x = p.push(POp::Var(0));
+            let y = p.push(POp::Var(1));
+            let z = p.push(POp::Var(2));
+            let t = p.push(POp::Bin(B::Add, y, z));
+            let u = p.push(POp::Bin(B::Mul, t, z));
+            let d = p.push(POp::Bin(b, z, if same { z } else { y }));
+            let a = p.push(POp::Bin(B::Sub, u, d));
+            let c = p.push(POp::Bin(B::Sub, a, t));
+            let e = p.push(POp::Bin(B::Sub, c, z));
+            let big = p.push(POp::Const(1e6));
+            let r = p.push(POp::Bin(B::Min, e, big));
+            p.roots = vec![r];
+            v.push((format!("min(((y+z)*z - {b:?}(z,{})) - (y+z) - z, 1e6)", if same { "z" } else { "y" }), p));
+        }
+        for j in [0usize, 7, 13] {
+            // 14 values sin(x + i) live at once, b(v_j, v_j) computed first, all summed in reverse
+            let mut p = Prog::default();
+            let x = p.push(POp::Var(0));
+            let vs: Vec<usize> = (0..14)
+                .map(|i| {
+                    let k = p.push(POp::Const(i as f32 * 0.25));
+                    let s = p.push(POp::Bin(B::Add, x, k));
+                    p.push(POp::Un(U::Sin, s))
+                })
+                .collect();
+            let mut acc = p.push(POp::Bin(b, vs[j], vs[j]));
+            for i in (0..14).rev() {
+                acc = p.push(POp::Bin(B::Add, acc, vs[i]));
+            }
+            let big = p.push(POp::Const(1e6));
+            let r = p.push(POp::Bin(B::Min, acc, big));
+            p.roots = vec![r];
+            v.push((format!("min({b:?}(v{j},v{j}) + sum of 14 live sin values, 1e6)"), p));
+        }
+    }
+    let base = pool_progs();
+    for i in [1usize, 3, 6] {
+        v.push((base[i].0.to_owned(), base[i].1.clone()));
+    }
+    v
+}
+
+fn handover_unit<F: Backend>(cx: &mut Cx, tier: Tier) {
+    let panel = handover_panel();
+    let funs: Vec<Fun<F>> = panel
+        .iter()
+        .map(|(_, p)| {
+            let mut ctx = Context::new();
+            let roots = p.build(&mut ctx);
+            let flat = Flat::from_ctx(&ctx, &roots);
+            let f = evalkit::build::<F>(&ctx, &roots).expect("panel function");
+            let nvars = f.vars().len().max(flat.vars.len());
+            Fun { f, nvars }
+        })
+        .collect();
+    let n = funs.len();
+    let uses: Vec<Use> = (0..n).map(|f| Use::Simplify { f: f as u8, input: 0 }).collect();
+    let expected: Vec<Result<Obs, String>> = uses.iter().map(|u| World::<F>::fresh().apply(&funs, *u)).collect();
+    for (i, e) in expected.iter().enumerate() {
+        if matches!(e, Ok(o) if o.extra.first() == Some(&1)) {
+            cx.add("handover_functions_with_a_trace", 1);
+        } else if let Err(m) = e {
+            cx.violation(format!("{} simplify on fresh objects fails", F::NAME), json!({"function": panel[i].0}), m.clone());
+        }
+    }
+    let mut sub = 0u64;
+    // thorough: also every triple over the op(a,a) programs of the small-pressure family
+    let third: Vec<Option<usize>> = if tier == Tier::Thorough { std::iter::once(None).chain((0..n).step_by(5).map(Some)).collect() } else { vec![None] };
+    for a in 0..n {
+        for b in 0..n {
+            for c in &third {
+                let sid = sub;
+                sub += 1;
+                if !cx.case(sid) {
+                    continue;
+                }
+                cx.add("cases", 1);
+                cx.add("nontrivial", 1);
+                cx.add("handover_sequences", 1);
+                let mut w = World::<F>::fresh();
+                let mut seq = vec![a, b];
+                if let Some(c) = c {
+                    seq.push(*c);
+                }
+                for (k, &f) in seq.iter().enumerate() {
+                    cx.add("evals", 1);
+                    let got = w.apply(&funs, uses[f]);
+                    if got != expected[f] {
+                        cx.violation(
+                            format!("{} simplify result depends on what the workspace / storage was used for before", F::NAME),
+                            json!({"backend": F::NAME, "sequence": seq.iter().map(|i| panel[*i].0.clone()).collect::<Vec<_>>(), "step": k}),
+                            format!("step {k} (simplify {}): on shared objects {}, on fresh objects {}", panel[f].0, short(&got), short(&expected[f])),
+                        );
+                        break;
+                    }
+                }
+            }
+        }
+    }
 }
 
 fn seq_unit<F: Backend>(cx: &mut Cx, tier: Tier, first: usize) {
@@ -760,14 +878,14 @@ impl Check for C10 {
     }
     fn meta(&self, tier: Tier) -> Meta {
         Meta {
-            rule: "case = sequence of uses executed on shared long-lived objects; function pool of 8 differently shaped functions {no choice / 2 vars; 3 vars / 2 choices; 14 live values (spills); 3 outputs incl. a constant; a free variable; zero variables; 40 choices; a HUGE one with ~1400 simultaneously live values (> 1024 spill slots at every register budget, 8400 nodes) and one choice, taking part with 3 uses}; a use = (point | interval | float-slice | grad-slice evaluation, function, one of 2 inputs with different sample counts) or (simplify function with the trace of one of 2 boxes, evaluate and recycle the child); 73 uses; EVERY sequence up to the depth bound goes through ONE evaluator per kind, ONE stack of recycled tape storage (JIT: executable mappings larger / smaller than the next code), ONE stack of recycled function storage and ONE workspace; each step's outputs, trace and (for simplify) the child's tape must equal bit-for-bit the same call on fresh objects; RenderHandle: on 3 functions (2 choices; 40 choices; a union of two clipped disks) every sequence of simplify calls over up to 5 traces discovered on grids of boxes of four sizes - up to three that shorten the function differently and up to two that do not, which makes the handle evict without caching - (cached-next hit, miss, eviction, recycle) up to the depth bound; Shape-level evaluators (ShapeBulkEval / ShapeTracingEval): every sequence of uses (4 shapes with 1, 3, 5, 2 variables x batch sizes {1,4,8,13} x with / without transform) up to depth 2 (thorough 3) through one evaluator per kind vs a fresh one; backends VM<255>, VM<3>, JIT; no state de-duplication (storage is opaque)".into(),
+            rule: "case = sequence of uses executed on shared long-lived objects; function pool of 8 differently shaped functions {no choice / 2 vars; 3 vars / 2 choices; 14 live values (spills); 3 outputs incl. a constant; a free variable; zero variables; 40 choices; a HUGE one with ~1400 simultaneously live values (> 1024 spill slots at every register budget, 8400 nodes) and one choice, taking part with 3 uses}; a use = (point | interval | float-slice | grad-slice evaluation, function, one of 2 inputs with different sample counts) or (simplify function with the trace of one of 2 boxes, evaluate and recycle the child); 73 uses; EVERY sequence up to the depth bound goes through ONE evaluator per kind, ONE stack of recycled tape storage (JIT: executable mappings larger / smaller than the next code), ONE stack of recycled function storage and ONE workspace; each step's outputs, trace and (for simplify) the child's tape must equal bit-for-bit the same call on fresh objects; RenderHandle: on 3 functions (2 choices; 40 choices; a union of two clipped disks) every sequence of simplify calls over up to 5 traces discovered on grids of boxes of four sizes - up to three that shorten the function differently and up to two that do not, which makes the handle evict without caching - (cached-next hit, miss, eviction, recycle) up to the depth bound; Shape-level evaluators (ShapeBulkEval / ShapeTracingEval): every sequence of uses (4 shapes with 1, 3, 5, 2 variables x batch sizes {1,4,8,13} x with / without transform) up to depth 2 (thorough 3) through one evaluator per kind vs a fresh one; hand-over panel (round 10): 58 programs whose allocation goes through the allocator's rare arms (a binary op - 11 opcodes - on operands spilled at that point, incl. op(a,a); 3 live values for VM<3>, 14 live values across calls for the JIT) each with a decided root choice: EVERY ordered pair (thorough: and triples with every 5th program third) is simplified through ONE workspace and ONE function-storage stack, each result (child tape hash, values, trace) equal to the same simplify on fresh objects; backends VM<255>, VM<3>, JIT; no state de-duplication (storage is opaque)".into(),
             bounds: match tier {
                 Tier::Quick => "depth 2 over all 73 uses; depth 3 over the 40 uses of the 4 most differently shaped functions; RenderHandle depth 4".into(),
                 Tier::Thorough => "depth 3 over all 73 uses; depth 4 over the 40-use sub-alphabet; RenderHandle depth 5".into(),
             },
             assumptions: vec!["observations are bit patterns of outputs, traces and, for simplify, size/choice count/tape hash of the child".into()],
             crash_policy: CrashPolicy::Violation,
-            vacuity: vec![("cases", 5000), ("render_handle_sequences", 50), ("render_handle_traces_not_shortening", 1), ("render_handle_traces_shortening", 2)],
+            vacuity: vec![("cases", 5000), ("handover_functions_with_a_trace", 100), ("render_handle_sequences", 50), ("render_handle_traces_not_shortening", 1), ("render_handle_traces_shortening", 2)],
             transitions_counter: "evals",
             nontrivial_counter: "nontrivial",
             exhaustive: true,
@@ -779,6 +897,11 @@ impl Check for C10 {
                 0 => seq_unit::<VmFunction>(cx, tier, first),
                 1 => seq_unit::<GenericVmFunction<3>>(cx, tier, first),
                 _ => seq_unit::<JitFunction>(cx, tier, first),
+            },
+            Unit::Handover { backend } => match backend {
+                0 => handover_unit::<VmFunction>(cx, tier),
+                1 => handover_unit::<GenericVmFunction<3>>(cx, tier),
+                _ => handover_unit::<JitFunction>(cx, tier),
             },
             Unit::ShapeEvals { backend } => {
                 let mut sub = 0u64;
